@@ -68,6 +68,17 @@ def fidelity_problems(sgz, src, q, fill='edge', is2d=False, check_bytes=True):
         bad = np.argwhere(vol.view(np.uint32) != ref.view(np.uint32))
         probs.append(f'read-back differs from the ZFP image of the edge-extended source at {len(bad)} voxels, '
                      f'first {bad[0].tolist()}: got {vol[tuple(bad[0])]!r} want {ref[tuple(bad[0])]!r}')
+    # the same read-back through the other ways a reader can be given the file: an open file object, a blob client
+    # (parallel range reads on a worker pool) -- the decoded volume must not depend on the entry point
+    from . import iolog
+    for how, mk in (('an open file object', lambda: open(sgz, 'rb')), ('a blob client', lambda: iolog.LoggedBlob(sgz))):
+        try:
+            with SgzReader(mk()) as r2:
+                vol2 = r2.read_subplane(0, src.shape[0], 0, src.shape[1]) if is2d else r2.read_volume()
+            if vol2.shape != vol.shape or not np.array_equal(vol2.view(np.uint32), vol.view(np.uint32)):
+                probs.append(f'read-back through {how} differs from the read-back through the path')
+        except Exception as e:  # noqa
+            probs.append(f'read-back through {how} failed: {type(e).__name__}: {str(e)[:80]}')
     if check_bytes:
         with open(sgz, 'rb') as f:
             f.seek(h.data_start())
